@@ -194,4 +194,21 @@ def Problem.intoSequential (P : Problem U s) : Problem U s :=
 
 theorem c11_into_sequential (P : Problem U s) : P.intoSequential = P := rfl
 
+/-- `into_parallel()`: the same field-by-field hand-over in the other direction -/
+def Problem.intoParallel (P : Problem U s) : Problem U s :=
+  { Yw := P.Yw, st := P.st, eps := P.eps, w := P.w, cached := P.cached }
+
+theorem c11_into_parallel (P : Problem U s) : P.intoParallel = P := rfl
+
+/-- **c11_conversion_then_updates**: a conversion anywhere in a history is invisible: every later
+update – which uses the threshold, the weights and the weighted data of the problem it is applied to –
+gives the problem it would have given without the conversion (in particular a user-chosen threshold
+survives `fit`, which always converts). -/
+theorem c11_conversion_then_updates [Add K] [Sub K] [Mul K] [Div K] [Zero K] [LT K] [DecidableLT K]
+    (x : Ext K) (o : XOps K) (P : Problem U s) (hist : List (Vector K p)) :
+    hist.foldl (fun Q α => Q.setParams x o α) P.intoSequential = hist.foldl (fun Q α => Q.setParams x o α) P ∧
+    hist.foldl (fun Q α => Q.setParams x o α) P.intoParallel = hist.foldl (fun Q α => Q.setParams x o α) P := by
+  rw [c11_into_sequential, c11_into_parallel]
+  exact ⟨rfl, rfl⟩
+
 end Varpro
